@@ -19,18 +19,18 @@ void h_uc_codec(void)
 	uc_cput(buf, c);
 	int l = CLEN(c);
 	/* well-formed sequence of the RFC length, NUL after it */
-	__CPROVER_assert(ULEN((unsigned char) buf[0]) == l, "uc_cput: lead byte announces the RFC length of the code point");
-	__CPROVER_assert(l < 2 || ISCONT((unsigned char) buf[1]), "uc_cput: byte 2 is a continuation byte");
-	__CPROVER_assert(l < 3 || ISCONT((unsigned char) buf[2]), "uc_cput: byte 3 is a continuation byte");
-	__CPROVER_assert(l < 4 || ISCONT((unsigned char) buf[3]), "uc_cput: byte 4 is a continuation byte");
-	__CPROVER_assert(buf[l] == 0, "uc_cput: NUL terminator follows the sequence");
+	H_ASSERT(ULEN((unsigned char) buf[0]) == l, "uc_cput: lead byte announces the RFC length of the code point");
+	H_ASSERT(l < 2 || ISCONT((unsigned char) buf[1]), "uc_cput: byte 2 is a continuation byte");
+	H_ASSERT(l < 3 || ISCONT((unsigned char) buf[2]), "uc_cput: byte 3 is a continuation byte");
+	H_ASSERT(l < 4 || ISCONT((unsigned char) buf[3]), "uc_cput: byte 4 is a continuation byte");
+	H_ASSERT(buf[l] == 0, "uc_cput: NUL terminator follows the sequence");
 	/* decoding and length agree with the code point */
-	__CPROVER_assert(uc_code(buf) == c, "uc_code(uc_cput(c)) == c for every scalar value");
-	__CPROVER_assert(uc_len(buf) == l, "uc_len(uc_cput(c)) is the RFC length");
-	__CPROVER_assert(uc_end(buf) == buf + l - 1, "uc_end agrees with uc_len on an encoded character");
-	__CPROVER_assert(uc_next(buf) == buf + l, "uc_next steps over exactly one encoded character");
-	__CPROVER_assert(uc_beg(buf, buf + l - 1) == buf, "uc_beg from the last byte finds the lead byte");
-	__CPROVER_assert(uc_prev(buf, buf + l) == buf, "uc_prev(uc_next(p)) == p");
+	H_ASSERT(uc_code(buf) == c, "uc_code(uc_cput(c)) == c for every scalar value");
+	H_ASSERT(uc_len(buf) == l, "uc_len(uc_cput(c)) is the RFC length");
+	H_ASSERT(uc_end(buf) == buf + l - 1, "uc_end agrees with uc_len on an encoded character");
+	H_ASSERT(uc_next(buf) == buf + l, "uc_next steps over exactly one encoded character");
+	H_ASSERT(uc_beg(buf, buf + l - 1) == buf, "uc_beg from the last byte finds the lead byte");
+	H_ASSERT(uc_prev(buf, buf + l) == buf, "uc_prev(uc_next(p)) == p");
 #ifdef CANARY
 	__CPROVER_assert(0, "canary");
 #endif
@@ -51,29 +51,29 @@ void h_uc_window(void)
 	__CPROVER_assume(l < 3 || ISCONT(w[5]));
 	__CPROVER_assume(l < 4 || ISCONT(w[6]));
 	__CPROVER_assume(!ISCONT(w[3 + l]));	/* what follows starts a character or is the NUL */
-	__CPROVER_assert(uc_len(p) == l, "uc_len: length from the lead byte is the RFC length");
-	__CPROVER_assert(uc_end(p) == p + l - 1, "uc_end (scanning continuation bytes) agrees with uc_len (lead byte)");
-	__CPROVER_assert(uc_next(p) == p + l, "uc_next: start of the following character");
-	__CPROVER_assert(uc_prev((char *) w, p + l) == p, "uc_prev undoes uc_next");
+	H_ASSERT(uc_len(p) == l, "uc_len: length from the lead byte is the RFC length");
+	H_ASSERT(uc_end(p) == p + l - 1, "uc_end (scanning continuation bytes) agrees with uc_len (lead byte)");
+	H_ASSERT(uc_next(p) == p + l, "uc_next: start of the following character");
+	H_ASSERT(uc_prev((char *) w, p + l) == p, "uc_prev undoes uc_next");
 	int j = nondet_int();
 	__CPROVER_assume(0 <= j && j < l);
-	__CPROVER_assert(uc_beg((char *) w, p + j) == p, "uc_beg: from any byte of the character to its lead byte");
+	H_ASSERT(uc_beg((char *) w, p + j) == p, "uc_beg: from any byte of the character to its lead byte");
 	/* decoding by the book */
 	int c = l == 1 ? w[3] :
 		l == 2 ? ((w[3] & 0x1f) << 6) | (w[4] & 0x3f) :
 		l == 3 ? ((w[3] & 0x0f) << 12) | ((w[4] & 0x3f) << 6) | (w[5] & 0x3f) :
 		((w[3] & 0x07) << 18) | ((w[4] & 0x3f) << 12) | ((w[5] & 0x3f) << 6) | (w[6] & 0x3f);
-	__CPROVER_assert(uc_code(p) == c, "uc_code: decodes the sequence by the RFC bit layout");
+	H_ASSERT(uc_code(p) == c, "uc_code: decodes the sequence by the RFC bit layout");
 	/* re-encoding the decoded value gives the same bytes when the sequence is the shortest form */
 	if (CLEN(c) == l && c > 0) {
 		char out[8];
 		uc_cput(out, c);
-		__CPROVER_assert((unsigned char) out[0] == w[3] && (l < 2 || (unsigned char) out[1] == w[4]) &&
+		H_ASSERT((unsigned char) out[0] == w[3] && (l < 2 || (unsigned char) out[1] == w[4]) &&
 			(l < 3 || (unsigned char) out[2] == w[5]) && (l < 4 || (unsigned char) out[3] == w[6]),
 			"uc_cput(uc_code(p)) reproduces the bytes of a shortest-form sequence");
 	}
 	/* the NUL and the end of string */
-	__CPROVER_assert(uc_len((char *) w + 11) == 0 && uc_next((char *) w + 11) == (char *) w + 11,
+	H_ASSERT(uc_len((char *) w + 11) == 0 && uc_next((char *) w + 11) == (char *) w + 11,
 		"uc_len/uc_next at the terminator: length 0, no step");
 #ifdef CANARY
 	__CPROVER_assert(0, "canary");
@@ -107,14 +107,14 @@ static int tab_sorted(int tab[][2], int n)
 void h_uc_tables(void)
 {
 	int c = nondet_int();	/* every int, including negative and beyond U+10FFFF */
-	__CPROVER_assert(tab_sorted(dwchars, LEN(dwchars)), "dwchars[] is sorted and its ranges are disjoint");
-	__CPROVER_assert(tab_sorted(zwchars, LEN(zwchars)), "zwchars[] is sorted and its ranges are disjoint");
-	__CPROVER_assert(tab_sorted(bchars, LEN(bchars)), "bchars[] is sorted and its ranges are disjoint");
-	__CPROVER_assert(find(c, dwchars, LEN(dwchars)) == tab_has(c, dwchars, LEN(dwchars)), "find(): bisection over dwchars[] == membership in a listed range, for every code point");
-	__CPROVER_assert(find(c, zwchars, LEN(zwchars)) == tab_has(c, zwchars, LEN(zwchars)), "find(): bisection over zwchars[] == membership in a listed range, for every code point");
-	__CPROVER_assert(find(c, bchars, LEN(bchars)) == tab_has(c, bchars, LEN(bchars)), "find(): bisection over bchars[] == membership in a listed range, for every code point");
-	__CPROVER_assert(!!uc_isdw(c) == tab_has(c, dwchars, LEN(dwchars)), "uc_isdw: double width iff listed in dwchars[]");
-	__CPROVER_assert(!!uc_iszw(c) == tab_has(c, zwchars, LEN(zwchars)), "uc_iszw: zero width iff listed in zwchars[]");
+	H_ASSERT(tab_sorted(dwchars, LEN(dwchars)), "dwchars[] is sorted and its ranges are disjoint");
+	H_ASSERT(tab_sorted(zwchars, LEN(zwchars)), "zwchars[] is sorted and its ranges are disjoint");
+	H_ASSERT(tab_sorted(bchars, LEN(bchars)), "bchars[] is sorted and its ranges are disjoint");
+	H_ASSERT(find(c, dwchars, LEN(dwchars)) == tab_has(c, dwchars, LEN(dwchars)), "find(): bisection over dwchars[] == membership in a listed range, for every code point");
+	H_ASSERT(find(c, zwchars, LEN(zwchars)) == tab_has(c, zwchars, LEN(zwchars)), "find(): bisection over zwchars[] == membership in a listed range, for every code point");
+	H_ASSERT(find(c, bchars, LEN(bchars)) == tab_has(c, bchars, LEN(bchars)), "find(): bisection over bchars[] == membership in a listed range, for every code point");
+	H_ASSERT(!!uc_isdw(c) == tab_has(c, dwchars, LEN(dwchars)), "uc_isdw: double width iff listed in dwchars[]");
+	H_ASSERT(!!uc_iszw(c) == tab_has(c, zwchars, LEN(zwchars)), "uc_iszw: zero width iff listed in zwchars[]");
 #ifdef CANARY
 	__CPROVER_assert(0, "canary");
 #endif
@@ -140,9 +140,9 @@ void h_uc_wid(void)
 	int wid = uc_wid((char *) w);
 	int zw = tab_has(c, zwchars, LEN(zwchars));
 	int dw = tab_has(c, dwchars, LEN(dwchars));
-	__CPROVER_assert(wid == (zw ? 0 : dw ? 2 : 1), "uc_wid: 0 for listed zero-width, 2 for listed double-width, else 1");
+	H_ASSERT(wid == (zw ? 0 : dw ? 2 : 1), "uc_wid: 0 for listed zero-width, 2 for listed double-width, else 1");
 	int ascii_print = w[0] == ' ' || w[0] == '\t' || w[0] == '\n' || (w[0] >= 0x20 && w[0] < 0x7f);
-	__CPROVER_assert(!!uc_isbell((char *) w) == (!ascii_print && (zw || tab_has(c, bchars, LEN(bchars)))),
+	H_ASSERT(!!uc_isbell((char *) w) == (!ascii_print && (zw || tab_has(c, bchars, LEN(bchars)))),
 		"uc_isbell: non-printable iff listed in zwchars[] or bchars[] (printable ASCII never)");
 #ifdef CANARY
 	__CPROVER_assert(0, "canary");
@@ -164,21 +164,21 @@ void h_uc_cshape(void)
 	int cur = nondet_int(), prev = nondet_int(), next = nondet_int();
 	int i;
 	for (i = 0; i + 1 < (int) LEN(achars); i++)
-		__CPROVER_assert(achars[i].c < achars[i + 1].c, "achars[] is strictly sorted by code point (bisection needs it)");
+		H_ASSERT(achars[i].c < achars[i + 1].c, "achars[] is strictly sorted by code point (bisection needs it)");
 	struct achar *ac = achar_lin(cur), *ap = achar_lin(prev), *an = achar_lin(next);
-	__CPROVER_assert(find_achar(cur) == ac, "find_achar: bisection == linear lookup, for every code point");
+	H_ASSERT(find_achar(cur) == ac, "find_achar: bisection == linear lookup, for every code point");
 	int r = uc_cshape(cur, prev, next);
 	if (!ac) {
-		__CPROVER_assert(r == cur, "uc_cshape: a character that is not a shapeable letter is never altered");
+		H_ASSERT(r == cur, "uc_cshape: a character that is not a shapeable letter is never altered");
 	} else {
 		/* joins with the previous letter iff that letter has an initial/medial form and this one a final/medial form */
 		int jp = ap && (ap->i || ap->m) && (ac->f || ac->m);
 		int jn = an && (ac->i || ac->m) && (an->f || an->m);
 		unsigned want = jp && jn ? ac->m : jp ? ac->f : jn ? ac->i : ac->c;
-		__CPROVER_assert(r == (int) (want ? want : (unsigned) cur), "uc_cshape: medial/final/initial/isolated form chosen by whether the neighbours join");
-		__CPROVER_assert(r == cur || (unsigned) r == ac->c || (unsigned) r == ac->i || (unsigned) r == ac->m || (unsigned) r == ac->f,
+		H_ASSERT(r == (int) (want ? want : (unsigned) cur), "uc_cshape: medial/final/initial/isolated form chosen by whether the neighbours join");
+		H_ASSERT(r == cur || (unsigned) r == ac->c || (unsigned) r == ac->i || (unsigned) r == ac->m || (unsigned) r == ac->f,
 			"uc_cshape: the result is a form of the same letter");
-		__CPROVER_assert(r != 0, "uc_cshape: never yields 0");
+		H_ASSERT(r != 0, "uc_cshape: never yields 0");
 	}
 #ifdef CANARY
 	__CPROVER_assert(0, "canary");
